@@ -90,6 +90,13 @@ def values_close(a, b, rtol):
     (NaN equals NaN, inf equals inf of the same sign).  The *type* of an array-like (list vs
     ndarray) is deliberately not compared: only what a reader of the numbers would see.
     """
+    if isinstance(a, np.ndarray) and isinstance(b, np.ndarray):
+        # fast path: bit-identical arrays (the overwhelmingly common case)
+        if a.dtype == b.dtype and a.shape == b.shape and a.dtype.kind in "biufc" and \
+                (a.size == 0 or a.tobytes() == b.tobytes()):
+            return None
+    elif type(a) is type(b) and isinstance(a, (int, float)) and a == b:
+        return None
     if a is None or b is None:
         return None if (a is None and b is None) else "None vs value"
     if isinstance(a, str) or isinstance(b, str):
